@@ -499,6 +499,18 @@ class FactsProblem(Problem):
                             new_ub.append((tt, T(la[0]), la[1]))
                         else:
                             new_ub.append((T(la[0]), tt, -la[1]))
+            # x = S.find(sub, lo, hi) / S.index(...): the result is below hi (or below len(S))
+            if simple and isinstance(value, ast.Call) and isinstance(value.func, ast.Attribute) and value.func.attr in ("find", "index", "rfind", "rindex") \
+                    and not value.keywords and 1 <= len(value.args) <= 3 and stable(value.func.value):
+                for t in store_targets(s):
+                    tt = U(t)
+                    if kill_path_of_target(t) != tt:
+                        continue
+                    if len(value.args) == 3:
+                        lh = lin(value.args[2])
+                        if lh is not None and not mentions(T(lh[0]), tt):
+                            new_ub.append((tt, T(lh[0]), lh[1] - 1))
+                    new_ub.append((tt, f"len({U(value.func.value)})", -1))
             for (a, b, c) in new_eqs:
                 z.add_eq(a, b, c)
             for (a, b, k) in new_ub:
